@@ -1,4 +1,5 @@
 import asyncio
+from collections import deque
 from contextlib import asynccontextmanager
 from itertools import count
 from typing import Any, Callable, Awaitable
@@ -28,6 +29,7 @@ class DispatchableMessageQueue(Stoppable):
     _msg_queue: asyncio.Queue = attrs.field(init=False, default=None)
     _recv_task: asyncio.Task = attrs.field(init=False, default=None)
     _dispatcher_task: asyncio.Task = attrs.field(init=False, default=None)
+    _unclaimed: deque = attrs.field(init=False, factory=deque)
 
     def __attrs_post_init__(self):
         self._msg_queue = asyncio.Queue()
@@ -68,6 +70,8 @@ class DispatchableMessageQueue(Stoppable):
         """
         if self._dispatcher_task:
             raise StateError(f'{self.session_id}-dispatcher, Dispatcher is running, cannot use get_no_wait')
+        if self._unclaimed:
+            return self._unclaimed.popleft()
         msg = None
         try:
             msg = self._msg_queue.get_nowait()
@@ -137,7 +141,7 @@ class DispatchableMessageQueue(Stoppable):
         counter = count(1)
         while not self._closed:
             try:
-                msg = await self._msg_queue.get()
+                msg = self._unclaimed.popleft() if self._unclaimed else await self._msg_queue.get()
                 await self.on_msg_coro(msg)
                 self.log.debug('%s> dispatched message %s', self.session_id, next(counter))
             except asyncio.CancelledError:
@@ -146,10 +150,14 @@ class DispatchableMessageQueue(Stoppable):
                 self.log.warning('%s> Exception when handling message, %s', self.session_id, exc)
 
     async def _blocking_read(self):
-        self._recv_task = asyncio.create_task(self._msg_queue.get())
+        helper = self._recv_task = asyncio.create_task(self._msg_queue.get())
         try:
-            return await self._recv_task
+            return await helper
         except asyncio.CancelledError:
+            if helper.done() and not helper.cancelled():
+                # the helper had already taken a message that this caller will never see:
+                # keep it for the next reader
+                self._unclaimed.append(helper.result())
             if self._closed:
                 # the queue was stopped while we were waiting
                 raise EndOfQueue()  # pylint: disable=W0707
